@@ -232,11 +232,12 @@ class Interp:
     MAX_DEPTH = 6
     MAX_TRACES = 4000
 
-    def __init__(self, ctx, summaries=None):
+    def __init__(self, ctx, summaries=None, overrides=None):
         self.ctx = ctx
         self.proj = ctx.proj
         self.folder = ctx.folder
         self.summaries = summaries or {}
+        self.overrides = overrides or {}  # ("module", "name") -> value
         self.trace = None
         self.choices = []
         self.pending = []
@@ -541,9 +542,13 @@ class Interp:
                 return FuncVal(self.proj.funcs[q])
             if q in self.proj.classes:
                 return TypeVal(q)
+            if (modname, node.id) in self.overrides:
+                return self.overrides[(modname, node.id)]
             e = self.folder.env(modname)
             if node.id in e:
                 return _thaw(e[node.id])
+            if node.id in mod.toplevel:
+                return Opaque(node.id, "obj")
         if node.id in ("str", "int", "list", "tuple", "dict", "set", "bytes", "float", "bool", "object"):
             return TypeVal(node.id)
         if node.id in ("isinstance", "len", "map", "locals", "hasattr", "any", "all", "sorted", "enumerate",
@@ -564,6 +569,8 @@ class Interp:
                     return FuncVal(self.proj.funcs[q])
                 if q in self.proj.classes:
                     return TypeVal(q)
+                if (base.name, node.attr) in self.overrides:
+                    return self.overrides[(base.name, node.attr)]
                 e = self.folder.env(base.name)
                 if node.attr in e:
                     return _thaw(e[node.attr])
@@ -845,13 +852,16 @@ class Interp:
             return out
         if isinstance(it, (Opaque, Sym)):
             if g.ifs:
-                raise Unsupported("filtered comprehension over opaque")
+                # a filtered selection of an unknown collection: a *different* (smaller) unknown collection
+                self.trace.events.append(("filtered", it, node))
+                return Opaque("%s~filtered" % it.name, getattr(it, "kind", "list") if isinstance(it, Opaque) else "list", getattr(it, "origin", None))
             e2 = dict(env)
             self.assign(g.target, Sym("%s[]" % it.name, "any", None), e2)
             return RepList(self.eval(node.elt, e2), it)
         raise Unsupported("comprehension over %r" % (it,))
 
     e_GeneratorExp = e_ListComp
+    e_SetComp = e_ListComp
 
     def e_Call(self, node, env):
         fn = self.eval(node.func, env)
@@ -949,6 +959,8 @@ class Interp:
             return d
         if name == "set":
             v = pos[0] if pos else []
+            if isinstance(v, Opaque):
+                return v
             if isinstance(v, (list, tuple)):
                 return list(dict.fromkeys(v))
             raise Unsupported("set(%r)" % (v,))
